@@ -5,11 +5,18 @@ at simulator yield points, and the task to run next is decided by a seeded sched
 (or by an explicit pick list on replay).  Every process boundary of the real system
 (task arguments, queue items, task results) is a real pickle round trip.
 
-Nothing here is installed into mici permanently: ``installed(sim)`` patches the
-module-level context-manager factories ``mici.samplers._pool_context_manager`` and
-``mici.samplers._ignore_sigint_manager`` (looked up by mici at call time), the disk
-seam ``numpy.lib.format.open_memmap`` and ``os.cpu_count`` for the duration of one run
-inside the check's own interpreter.
+Nothing here is installed into mici permanently: ``installed(sim)`` patches the names
+``mici.samplers.Pool`` and ``mici.samplers.SyncManager`` (the multiprocessing classes mici
+imports; looked up by mici at call time, so its own ``_pool_context_manager`` and
+``_ignore_sigint_manager`` run unchanged on top of the simulated classes), the disk seam
+``numpy.lib.format.open_memmap`` and ``os.cpu_count`` for the duration of one run inside the
+check's own interpreter.
+
+Signal dispositions are modelled as the operating system does: the parent's disposition of
+SIGINT is the real one of this process (``signal.getsignal``), pool workers inherit the
+parent's disposition at the moment the pool is created, the manager process runs the
+initializer it is started with.  A simulated interrupt aimed at a process that ignores
+SIGINT is dropped.
 """
 
 from __future__ import annotations
@@ -19,6 +26,7 @@ import os
 import pickle
 import queue as _queue
 import random
+import signal
 import threading
 
 import numpy as np
@@ -174,6 +182,10 @@ class Sim:
         # a broadcast interrupt reaches the parent at its next scheduling point
         if me == self.main_name and me in self.interrupt_pending:
             self.interrupt_pending.discard(me)
+            if parent_ignores_sigint():
+                self.log.add("interrupt-dropped", me)
+                self.interrupts_dropped = getattr(self, "interrupts_dropped", 0) + 1
+                return
             self.log.add("interrupt-delivered", me)
             raise KeyboardInterrupt
 
@@ -289,11 +301,30 @@ class SimQueue:
 
 
 class SimManager:
+    """Stand-in for multiprocessing.managers.SyncManager (start / shutdown / Queue)."""
+
     def __init__(self, sim):
         self.sim = sim
+        self.started = False
+
+    def start(self, initializer=None, initargs=()):
+        # the initializer runs in the manager's server process, never in the parent
+        self.started = True
+        self.sim.manager_initializer = getattr(initializer, "__name__", repr(initializer))
+        self.sim.log.add("manager-start", self.sim.manager_initializer)
+
+    def shutdown(self):
+        self.started = False
 
     def Queue(self):  # noqa: N802 - multiprocessing API
         return SimQueue(self.sim)
+
+
+def parent_ignores_sigint():
+    try:
+        return signal.getsignal(signal.SIGINT) is signal.SIG_IGN
+    except Exception:  # noqa: BLE001
+        return False
 
 
 class SimAsyncResult:
@@ -326,6 +357,8 @@ class SimPool:
         self.names = []
         sim.n_pools = getattr(sim, "n_pools", 0) + 1
         self.pool_id = sim.n_pools
+        # forked workers inherit the parent's SIGINT disposition as of now
+        self.sigint_ignored = parent_ignores_sigint()
 
     def starmap_async(self, fn, arglist):
         names = []
@@ -333,10 +366,20 @@ class SimPool:
             args = self.sim.loads(pickle.dumps(args))  # process boundary
             name = f"w{self.pool_id:02d}_{i}"
             self.sim.spawn(name, lambda a=args: fn(*a))
+            self.sim.tasks[name]["sigint_ignored"] = self.sigint_ignored
             names.append(name)
         self.names.extend(names)
         self.sim.yield_("starmap_async")
         return SimAsyncResult(self.sim, names)
+
+    def close(self):
+        pass
+
+    def terminate(self):
+        pass
+
+    def join(self):
+        self.close_and_join()
 
     def close_and_join(self):
         if self.names:
@@ -389,27 +432,15 @@ def installed(sim: Sim | None, disk: Disk | None = None):
 
     import mici.samplers as ms
 
-    saved = (ms._pool_context_manager, ms._ignore_sigint_manager, npf.open_memmap, os.cpu_count)
+    saved = (ms.Pool, ms.SyncManager, npf.open_memmap, os.cpu_count)
     prev = _CURRENT
     try:
         if sim is not None:
             _CURRENT = sim
             sim.register_main()
 
-            @contextlib.contextmanager
-            def sim_manager():
-                yield SimManager(sim)
-
-            @contextlib.contextmanager
-            def sim_pool(n_process):
-                pool = SimPool(sim, n_process)
-                try:
-                    yield pool
-                finally:
-                    pool.close_and_join()
-
-            ms._pool_context_manager = sim_pool
-            ms._ignore_sigint_manager = sim_manager
+            ms.Pool = lambda n_process=None, *a, **k: SimPool(sim, n_process)  # noqa: ARG005
+            ms.SyncManager = lambda *a, **k: SimManager(sim)  # noqa: ARG005
             os.cpu_count = lambda: sim.cpu_count
         if disk is not None:
             real_open = saved[2]
@@ -424,7 +455,7 @@ def installed(sim: Sim | None, disk: Disk | None = None):
             npf.open_memmap = open_memmap
         yield
     finally:
-        ms._pool_context_manager, ms._ignore_sigint_manager, npf.open_memmap, os.cpu_count = saved
+        ms.Pool, ms.SyncManager, npf.open_memmap, os.cpu_count = saved
         _CURRENT = prev
 
 
